@@ -43,9 +43,12 @@ def drop(d):
     shutil.rmtree(d, ignore_errors=True)
 
 
-def clean_env():
+def clean_env(private=None):
     env = {k: v for k, v in os.environ.items() if not k.startswith("XDG_") and k != "PYTHONPATH"}
     env["PYTHONDONTWRITEBYTECODE"] = "1"
+    if private:  # the suite and the demos share ~/.local/share/activitywatch otherwise (concurrent runs lock it)
+        for k in ("DATA", "CONFIG", "CACHE"):
+            env[f"XDG_{k}_HOME"] = os.path.join(private, f".xdg-{k.lower()}")
     return env
 
 
@@ -57,7 +60,7 @@ def intake(prop, src, name):
     wt = scratch()
     ran = []
     try:
-        rc, out = sh(f"{PY} {demo}", cwd=wt, env=clean_env())
+        rc, out = sh(f"{PY} {demo}", cwd=wt, env=clean_env(wt))
         ran.append({"cmd": "demo.py on unmodified tree", "exit": rc})
         if rc != 0:
             print(f"REJECT {name}: demo fails on the unmodified tree\n{out[-600:]}")
@@ -66,13 +69,13 @@ def intake(prop, src, name):
         if rc != 0:
             print(f"REJECT {name}: patch does not apply\n{out[-600:]}")
             return 1
-        rc, out = sh(f"{PY} -m pytest -q -p no:cacheprovider -x", cwd=wt, env=clean_env())
+        rc, out = sh(f"{PY} -m pytest -q -p no:cacheprovider -x", cwd=wt, env=clean_env(wt))
         m = re.search(r"(\d+) passed", out)
         ran.append({"cmd": "pytest with patch", "exit": rc, "passed": int(m.group(1)) if m else 0})
         if rc != 0 or not m or int(m.group(1)) != 156:
             print(f"REJECT {name}: test suite does not pass with the patch\n{out[-600:]}")
             return 1
-        rc, out = sh(f"{PY} {demo}", cwd=wt, env=clean_env())
+        rc, out = sh(f"{PY} {demo}", cwd=wt, env=clean_env(wt))
         ran.append({"cmd": "demo.py with patch", "exit": rc, "output": out[-400:]})
         if rc != 1:
             print(f"REJECT {name}: demo exits {rc} with the patch (expected 1)\n{out[-600:]}")
